@@ -622,7 +622,9 @@ def finish(ctx, lean, level_text, trusted, rule, extra_cov=None):
         property_id=ctx.prop, tier=ctx.tier, seed=ctx.seed, level='proof',
         coverage=cov, assumptions=trusted, wall_s=round(time.time() - ctx.t0, 2),
         violations=n_viol + (1 if (broken and n_viol == 0) else 0))
-    os.makedirs(os.path.join(VERIF, 'evidence'), exist_ok=True)
-    with open(os.path.join(VERIF, 'evidence', f'{ctx.prop}.json'), 'w') as f:
+    # (seedtest.py redirects the evidence of runs against a seeded change to a scratch directory)
+    evdir = os.environ.get('VERIF_EVIDENCE_DIR') or os.path.join(VERIF, 'evidence')
+    os.makedirs(evdir, exist_ok=True)
+    with open(os.path.join(evdir, f'{ctx.prop}.json'), 'w') as f:
         json.dump(ev, f, indent=1, default=str)
     return code
